@@ -201,6 +201,18 @@ def r06_3(ctx):
                     f.loc(branches[name][0]))
         else:
             ctx.ok(construct, f.loc(branches[name][0]), paths=len(paths))
+        # the shadow is the number of the value that was just taken, not of something else
+        k = 0
+        for n in ast.walk(ast.Module(body=branches[name], type_ignores=[])):
+            if not (isinstance(n, ast.Assign) and isinstance(n.targets[0], ast.Name) and n.targets[0].id.startswith("val_num")):
+                continue
+            for c in [x for x in ast.walk(n.value) if isinstance(x, ast.Call) and isinstance(x.func, ast.Name) and x.func.id in ("int", "float") and x.args]:
+                k += 1
+                construct = f"Symbol.str_value/{name}/numeric shadow #{k} is the number of the value just taken"
+                arg = ast.unparse(c.args[0])
+                (ctx.ok(construct, f.loc(c), nontrivial=False) if arg == result else
+                 ctx.bad(construct, f"`{ast.unparse(n)[:70]}` converts `{arg}`, not the value `{result}` that will be emitted: the clamp decision is "
+                         "taken on another number and an out-of-range value passes unclamped", f.loc(c)))
 
 
 def _arms_for(chains, ty: str):
@@ -425,5 +437,19 @@ def r06_9(ctx):
              "default-marked entry becomes the option's value in every output", inj.loc(first)))
 
 
+def r06_10(ctx):
+    """R06.10 number forms: (a) the float validator decides by float() + math.isfinite() and rejects nothing on character
+    classes (overflowing literals rejected, exponent notation accepted); (b) no consumer parses a value with an
+    auto-detected base; (c) every hex-prefix test knows both spellings 0x / 0X."""
+    from .common import float_validator_shape, hex_prefix_both_cases, no_autodetected_base
+    float_validator_shape(ctx)
+    mods = [CORE, "esp_kconfiglib.deprecated", "kconfgen.core", "kconfserver.core", "esp_menuconfig.app", "esp_menuconfig.model",
+            "esp_menuconfig.formatting", "esp_idf_kconfig.gen_kconfig_doc"]
+    mods = [m for m in mods if m in ctx.repo.modules]
+    no_autodetected_base(ctx, mods, "a hex value without 0x is read as decimal and an int with leading zeros raises ValueError, while the header and "
+                         "CMake output render the base-16 / base-10 reading")
+    hex_prefix_both_cases(ctx, mods)
+
+
 def rules():
-    return [("R06.6", r06_6, 14), ("R06.7", r06_7, 3), ("R06.1", r06_1, 7), ("R06.2", r06_2, 6), ("R06.3", r06_3, 2), ("R06.4", r06_4, 20), ("R06.5", r06_5, 3), ("R06.8", r06_8, 12), ("R06.9", r06_9, 1)]
+    return [("R06.10", r06_10, 12), ("R06.6", r06_6, 14), ("R06.7", r06_7, 3), ("R06.1", r06_1, 7), ("R06.2", r06_2, 6), ("R06.3", r06_3, 2), ("R06.4", r06_4, 20), ("R06.5", r06_5, 3), ("R06.8", r06_8, 12), ("R06.9", r06_9, 1)]
